@@ -70,8 +70,10 @@ type VCOpts struct {
 	OnCall           func(fr *Frame, ins ssa.CallInstruction, callee *ssa.Function, args []Val) // before the call effect
 	OnReturn         func(fr *Frame, ret *ssa.Return, results []Val)
 	OnStore          func(fr *Frame, st *ssa.Store)
-	AutoContract     func(fn *ssa.Function) *Contract // default contracts (e.g. cursor contract) when none is written
-	SafetyKinds      map[string]bool                  // restrict safety kinds; nil = all
+	OnBytesToString  func(fr *Frame, x *ssa.Convert, bytes Val, str Val) // string([]byte) conversions (C19 provenance)
+	OnStringToBytes  func(fr *Frame, x *ssa.Convert, str Val, bytes Val) // []byte(string) conversions
+	AutoContract     func(fn *ssa.Function) *Contract                    // default contracts (e.g. cursor contract) when none is written
+	SafetyKinds      map[string]bool                                     // restrict safety kinds; nil = all
 	AfterCall        func(fr *Frame, ins ssa.Instruction, c *ssa.CallCommon, callee *ssa.Function, args []Val, res Val)
 	OnMakeInterface  func(fr *Frame, x *ssa.MakeInterface, iv Val)
 	CheckTags        map[string]bool                       // clause groups whose obligations this run generates (nil: the untagged, structural group only)
